@@ -89,3 +89,68 @@ package encoding
 //@   prop C14
 //@   ensures (d.width == 0 ==> result == 0) && (d.width != 0 ==> result == d.size)
 //@ end
+
+//@ # ---- XOR (gorilla) value codec --------------------------------------------------------------------
+//@ # what the decoder makes of the bits at position p, as a function of the stream and its state
+//@ pure xorDecVal(data map[int]byte, p int, first bool, prev uint64, ld uint64, tr uint64) uint64 = ite(first, bit.bitsval(data, p, 64), ite(!bit.sbit(data, p), prev, ite(bit.sbit(data, p + 1), prev ^ (bit.bitsval(data, p + 2, int(64 - ld - tr)) << tr), prev ^ (bit.bitsval(data, p + 14, int(bit.bitsval(data, p + 8, 6) + 1)) << (64 - bit.bitsval(data, p + 2, 6) - (bit.bitsval(data, p + 8, 6) + 1))))))
+//@ pure xorDecLen(data map[int]byte, p int, first bool, ld uint64, tr uint64) int = ite(first, 64, ite(!bit.sbit(data, p), 1, ite(bit.sbit(data, p + 1), 2 + int(64 - ld - tr), 14 + int(bit.bitsval(data, p + 8, 6) + 1))))
+//@ pure xorDecNewWindow(data map[int]byte, p int, first bool) bool = !first && bit.sbit(data, p) && !bit.sbit(data, p + 1)
+//@ pure xorDecLead(data map[int]byte, p int, first bool, ld uint64) uint64 = ite(xorDecNewWindow(data, p, first), bit.bitsval(data, p + 2, 6), ld)
+//@ pure xorDecTrail(data map[int]byte, p int, first bool, tr uint64) uint64 = ite(xorDecNewWindow(data, p, first), 64 - bit.bitsval(data, p + 2, 6) - (bit.bitsval(data, p + 8, 6) + 1), tr)
+//@ # the stream is well formed at p for a decoder in this state: the block sizes are at most 64 bits
+//@ pure xorDecValid(data map[int]byte, p int, first bool, ld uint64, tr uint64) bool = first || !bit.sbit(data, p) || ite(bit.sbit(data, p + 1), ld + tr <= 63 && ld <= 63 && tr <= 63, bit.bitsval(data, p + 2, 6) + bit.bitsval(data, p + 8, 6) + 1 <= 64)
+//@ # encoder: the window is either empty (0,0) or the one of the last value that needed a new window
+//@ # scalar facts about the meaningful-bits window
+//@ lemma window_holds_delta bv prop C14 using clz64_def ctz64_def: allof(x, "uint64", l, "int", t, "int", (x != 0 && l >= 0 && t >= 0 && l + t <= 63 && clz64(x) >= l && ctz64(x) >= t) ==> ((x >> uint(t)) << uint(t) == x && (l + t > 0 ==> (x >> uint(t)) >> uint(64 - l - t) == 0)))
+//@ lemma own_window_holds_delta bv prop C14 using clz64_def ctz64_def: all(x, "uint64", x != 0 ==> (clz64(x) + ctz64(x) <= 63 && (x >> uint(ctz64(x))) << uint(ctz64(x)) == x && (clz64(x) + ctz64(x) > 0 ==> (x >> uint(ctz64(x))) >> uint(64 - clz64(x) - ctz64(x)) == 0)))
+//@ predicate xeOK(e *XOREncoder) bool = e.bw != nil && bit.wSane(e.bw) && e.bw.w.n < 72057594037927000 && e.bw.w.reliable && e.leading >= 0 && e.trailing >= 0 && e.leading + e.trailing <= 63
+//@ func XOREncoder.Reset
+//@   prop C14
+//@   modifies e.previousVal, e.leading, e.trailing, e.first, e.err
+//@   ensures[pooled_reuse_starts_clean] e.previousVal == 0 && e.leading == 0 && e.trailing == 0 && e.first && e.err == nil
+//@ end
+//@ # round trip, stated on the encoder: what the decoder computes (xorDec*, proved for XORDecoder.Next) from
+//@ # the bits appended by Write is the written value, the number of appended bits and the encoder's new window
+//@ func XOREncoder.Write
+//@   prop C14
+//@   paths
+//@   opaque tok bitsval sbit
+//@   uses bitsval_def bitsval_fits
+//@   apply window_holds_delta(val ^ e.previousVal, e.leading, e.trailing)
+//@   apply own_window_holds_delta(val ^ e.previousVal)
+//@   timeout 300
+//@   requires xeOK(e)
+//@   modifies e.err, e.first, e.previousVal, e.leading, e.trailing, e.bw.b, e.bw.count, e.bw.w.out, e.bw.w.n
+//@   ensures[first_control_bit_says_whether_the_value_changed] !old(e.first) ==> (bit.sbit(bit.wdata(e.bw), old(bit.wlen(e.bw))) == ((val ^ old(e.previousVal)) != 0))
+//@   ensures[tokens_written] old(e.first) || !bit.sbit(bit.wdata(e.bw), old(bit.wlen(e.bw))) || ite(bit.sbit(bit.wdata(e.bw), old(bit.wlen(e.bw)) + 1), bit.bitsval(bit.wdata(e.bw), old(bit.wlen(e.bw)) + 2, 64 - old(e.leading) - old(e.trailing)) == (val ^ old(e.previousVal)) >> uint(old(e.trailing)), bit.bitsval(bit.wdata(e.bw), old(bit.wlen(e.bw)) + 2, 6) == uint64(clz64((val ^ old(e.previousVal)))) && bit.bitsval(bit.wdata(e.bw), old(bit.wlen(e.bw)) + 8, 6) == uint64(64 - clz64((val ^ old(e.previousVal))) - ctz64((val ^ old(e.previousVal))) - 1) && bit.bitsval(bit.wdata(e.bw), old(bit.wlen(e.bw)) + 14, 64 - clz64((val ^ old(e.previousVal))) - ctz64((val ^ old(e.previousVal)))) == (val ^ old(e.previousVal)) >> uint(ctz64((val ^ old(e.previousVal)))))
+//@   ensures[decoder_recovers_the_value] xorDecVal(bit.wdata(e.bw), old(bit.wlen(e.bw)), old(e.first), old(e.previousVal), uint64(old(e.leading)), uint64(old(e.trailing))) == val
+//@   ensures[decoder_consumes_exactly_what_was_written] bit.wlen(e.bw) == old(bit.wlen(e.bw)) + xorDecLen(bit.wdata(e.bw), old(bit.wlen(e.bw)), old(e.first), uint64(old(e.leading)), uint64(old(e.trailing)))
+//@   ensures[decoder_window_follows_encoder_window] uint64(e.leading) == xorDecLead(bit.wdata(e.bw), old(bit.wlen(e.bw)), old(e.first), uint64(old(e.leading))) && uint64(e.trailing) == xorDecTrail(bit.wdata(e.bw), old(bit.wlen(e.bw)), old(e.first), uint64(old(e.trailing)))
+//@   ensures[stream_is_well_formed] xorDecValid(bit.wdata(e.bw), old(bit.wlen(e.bw)), old(e.first), uint64(old(e.leading)), uint64(old(e.trailing)))
+//@   ensures[state] e.previousVal == val && !e.first && result == nil && e.bw == old(e.bw) && e.bw.w == old(e.bw.w) && e.leading >= 0 && e.trailing >= 0 && e.leading + e.trailing <= 63 && bit.wSane(e.bw) && e.bw.w.n <= old(e.bw.w.n) + 12
+//@   ensures[earlier_bits_kept] all(i, (i >= 0 && i < old(bit.wlen(e.bw))) ==> bit.sbit(bit.wdata(e.bw), i) == old(bit.sbit(bit.wdata(e.bw), i)))
+//@   ensures[earlier_values_kept] allof(p, "int", n, "int", trigger(bit.bitsval(bit.wdata(e.bw), p, n), (p >= 0 && p <= 1152921504606846976 && n >= 0 && n <= 64 && p + n <= old(bit.wlen(e.bw))) ==> bit.bitsval(bit.wdata(e.bw), p, n) == old(bit.bitsval(bit.wdata(e.bw), p, n))))
+//@ end
+//@ predicate xdOK(d *XORDecoder) bool = d.br != nil && bit.rSane(d.br) && d.br.count < 8
+//@ func XORDecoder.Reset
+//@   prop C14
+//@   modifies d.first, d.leading, d.trailing, d.err, d.val
+//@   ensures[pooled_reuse_starts_clean] d.first && d.leading == 0 && d.trailing == 0 && d.err == nil && d.val == 0
+//@ end
+//@ func XORDecoder.Next
+//@   prop C14
+//@   paths
+//@   timeout 120
+//@   opaque tok bitsval
+//@   uses bitsval_def bitsval_fits
+//@   requires xdOK(d)
+//@   modifies d.err, d.first, d.val, d.leading, d.trailing, d.br.b, d.br.count, d.br.err, d.br.buf.index
+//@   ensures[error_is_sticky] old(d.err) != nil ==> (!result && d.val == old(d.val) && d.err == old(d.err))
+//@   ensures[decodes_the_stream] (old(d.err) == nil && old(d.br.err) == nil && xorDecValid(contents(d.br.buf.buf), old(bit.rpos(d.br)), old(d.first), old(d.leading), old(d.trailing)) && old(bit.rpos(d.br)) + xorDecLen(contents(d.br.buf.buf), old(bit.rpos(d.br)), old(d.first), old(d.leading), old(d.trailing)) <= d.br.buf.length * 8) ==> (result && d.err == nil && !d.first && d.val == xorDecVal(contents(d.br.buf.buf), old(bit.rpos(d.br)), old(d.first), old(d.val), old(d.leading), old(d.trailing)) && bit.rpos(d.br) == old(bit.rpos(d.br)) + xorDecLen(contents(d.br.buf.buf), old(bit.rpos(d.br)), old(d.first), old(d.leading), old(d.trailing)) && d.leading == xorDecLead(contents(d.br.buf.buf), old(bit.rpos(d.br)), old(d.first), old(d.leading)) && d.trailing == xorDecTrail(contents(d.br.buf.buf), old(bit.rpos(d.br)), old(d.first), old(d.trailing)))
+//@   ensures (result && d.err == nil) ==> xdOK(d)
+//@   ensures d.br == old(d.br) && d.br.buf == old(d.br.buf) && d.br.buf.buf == old(d.br.buf.buf)
+//@ end
+//@ func XORDecoder.Value
+//@   prop C14
+//@   ensures result == d.val
+//@ end
